@@ -89,6 +89,7 @@ def Item.render : Item → String
        | .single => joinWith "::" (path.map nm)
        | .multiple ns => joinWith "::" (path.map nm) ++ "::{" ++ joinWith ", " (ns.map nm) ++ "}"
        | .wildcard => joinWith "::" (path.map nm) ++ "::*") ++ "\n"
+  | .letD p x e => (if p then "pub " else "") ++ "let " ++ nm x ++ " = " ++ renderExpr e ++ "\n"
 def renderL : List Item → String
   | [] => ""
   | i :: is => i.render ++ renderL is
@@ -99,6 +100,7 @@ def symStr (s : Sym) : String := joinWith "$" (s.map nm)
 /-- replace what follows the last statement of a flattened program -/
 def setTail (t : Expr) : Expr → Expr
   | .letrec f e b => .letrec f e (setTail t b)
+  | .letE x e b => .letE x e (setTail t b)
   | .unit => t
   | e => e
 
